@@ -39,6 +39,7 @@ Definition mon (m : mst) (o : op) (out : list obs) : mst * verdict :=
   | Connect p => (if memN p m then m else p :: m, match out with [] => [] | _ => [CL_SHAPE] end)
   | Disconnect p => (filter (fun q => negb (N.eqb q p)) m, match out with [] => [] | _ => [CL_SHAPE] end)
   | Inbound p _ => (m, crash_verdict out)
+  | Opaque p => (m, crash_verdict out)
   | Probe p c =>
       (m, if memN p m
           then crash_verdict out ++
